@@ -454,6 +454,10 @@ func drawPlan(t *rapid.T, prop, family string) *Plan {
 		p = g.planSSO(prop)
 	case "C07":
 		p = g.planC07()
+	case "C12":
+		p = g.planC12()
+	case "C13":
+		p = g.planC13()
 	case "C03", "C04":
 		p = g.planFlows(prop)
 	default:
